@@ -1,6 +1,6 @@
 SPECIFICATION Spec
 CONSTANTS
-  AxisQuats <- MC_AxisQuatsThorough
+  AxisQuats <- MC_AxisQuatsMotionThorough
   Bases <- MC_Bases
   Radii = {1, 2, 3}
   Heights = {1, 3, 4}
